@@ -1,6 +1,7 @@
 package ksim
 
 import (
+	"encoding/json"
 	"fmt"
 	mrand "math/rand"
 	"os"
@@ -163,8 +164,20 @@ func (s *Sim) onCommit(w *Write) {
 			s.EvLog.add(fmt.Sprintf("W|%d|%s|%s|%s|%s|%s", w.Seq, w.Actor, w.Verb, w.Key, body, w.Time.Format("15:04:05.000")))
 		}
 	}
+	nv := len(s.Violations)
 	for _, o := range s.Oracles {
 		o.OnWrite(s, w)
+	}
+	if s.EvLog != nil && s.EvLog.keep {
+		if w.Key.GK == gkRollout || w.Key.GK == gkBR {
+			s.EvLog.Lines = append(s.EvLog.Lines, "  # "+s.abstractState())
+		} else if isWorkloadGK(w.Key) && w.New != nil {
+			e, n, _ := s.exposure(w.New)
+			s.EvLog.Lines = append(s.EvLog.Lines, fmt.Sprintf("  # %s exposure=%d/%d gen=%d status=%s", w.Key, e, n, w.New.GetGeneration(), statusJSON(w.New)))
+		}
+		for _, v := range s.Violations[nv:] {
+			s.EvLog.Lines = append(s.EvLog.Lines, "  !! "+v.Property+" "+v.Sig+": "+firstLine(v.Detail))
+		}
 	}
 	s.traceWrite(w)
 }
@@ -218,4 +231,11 @@ func (s *Sim) abstractState() string {
 
 func (s *Sim) finalSummary(sc *Scenario) string {
 	return s.abstractState()
+}
+
+func statusJSON(o interface{}) string {
+	b, _ := json.Marshal(o)
+	m := map[string]json.RawMessage{}
+	_ = json.Unmarshal(b, &m)
+	return string(m["status"])
 }
